@@ -85,7 +85,7 @@ def handle (line : String) : String :=
     | _, _ => "bad-arg"
   | ["find", tol, skips, w, q] =>
     match decStr w, (if skips == "_" then some [] else (skips.splitOn ",").mapM decStr),
-          (q.splitOn ",").mapM decStr with
+          ((q.splitOn ",").filter (fun x => x != "")).mapM decStr with
     | some s, some sk, some qs =>
       match parse (tol == "1") sk s with
       | .ok es =>
